@@ -468,7 +468,15 @@ class Circuit:
                 and blk.init_timeout > 0.0]
         if start_tasks:
             self.log_debug("Initializing async sequential blocks")
-            await self._run_tasks("async init", start_tasks)
+            try:
+                await self._run_tasks("async init", start_tasks)
+            finally:
+                # when interrupted (simulation stop), do not leave the init tasks running
+                pending = [task for _, task, _ in start_tasks if not task.done()]
+                for task in pending:
+                    task.cancel()
+                if pending:
+                    await asyncio.gather(*pending, return_exceptions=True)
 
     @staticmethod
     def init_sblock(blk: block.SBlock, full: bool) -> None:
